@@ -16,5 +16,5 @@ func main() {
 			p.Dups = 15
 		}
 		return p
-	}, 250, 4000, "From HI Require Import Corr.Corr_C02.")
+	}, 220, 4000, "From HI Require Import Corr.Corr_C02.")
 }
